@@ -97,7 +97,7 @@ def gen_text(rng, B, file_safe, non_ascii=False):
     # data alphabet: everything printable minus the run's delimiters
     alphabet = ''.join(c for c in PRINTABLE if c not in (seg_term, ele_term, sub_term))
     if non_ascii and rng.random() < 0.2:
-        alphabet += '\xc9\xe9\xa6\xff'       # bytes outside ASCII in the data of a file named by path
+        alphabet += '\xc9\xe9\xa6\xff\x80\x85\x92\x81\x9d'       # bytes outside ASCII (C1 controls too: code pages disagree there) in the data of a file named by path
     allow_ws = not file_safe
     layout = rng.choice(['none', 'none', 'lf', 'crlf', 'cr', 'mixed', 'several'])
     if seg_term in '\r\n' and layout != 'none' and rng.random() < 0.7:
@@ -226,7 +226,7 @@ def generate(rng, tier, run, seed=0):
     for _ in range(nconf):
         kinds.append(rng.choice(KINDS))
     file_safe = any(k in ('file_obj',) for k in kinds)      # only a stream the *caller* opened with newline translation needs folding-safe text
-    text, layout, feats = gen_text(rng, B, file_safe)
+    text, layout, feats = gen_text(rng, B, file_safe, non_ascii=True)
     seg_term = text[105]
     configs = []
     for k in kinds:
@@ -259,10 +259,10 @@ def open_source(cfg, text, log, scratch):
     with os.fdopen(fd, 'w', encoding='latin-1', newline='') as f:
         f.write(text)
     if kind == 'file_obj':
-        fobj = open(path, 'r', encoding='ascii')
+        fobj = open(path, 'r', encoding='latin-1')
         return fobj, (fobj, path), fold_newlines(text)
     if kind == 'file_raw':
-        fobj = open(path, 'r', encoding='ascii', newline='')
+        fobj = open(path, 'r', encoding='latin-1', newline='')
         return fobj, (fobj, path), text
     if kind == 'path':
         return path, (None, path), text        # a file named by path is read as it is (no newline folding: a CR may be data or a delimiter)
